@@ -10,7 +10,7 @@ from .. import c19obj
 from ..core import CaseResult, outcome
 
 ID = "C19"
-LEVEL = "other"
+LEVEL = "proof"
 RULE = ("random histories of 6-25 public query/conversion calls over a pool of live objects (2 automata, 2 grammars, 2 "
         "regexes, a PDA, a transducer, an indexed grammar), incl. repeated calls, conversions of conversions, the same "
         "object as both operands and mutations of returned objects; after every call its canonical result is compared "
